@@ -118,8 +118,15 @@ func (m *ParSigEx) handle(ctx context.Context, sender peer.ID, req proto.Message
 	setVerificationDuration.WithLabelValues(duty.Type.String()).Observe(time.Since(verifyStart).Seconds())
 
 	for _, sub := range m.subs {
+		// Clone for each subscriber, so that no two of them share the received set.
+		clone, err := set.Clone()
+		if err != nil {
+			log.Error(ctx, "Failed to clone partial signature set", err)
+			continue
+		}
+
 		// TODO(corver): Call this async
-		err := sub(ctx, duty, set)
+		err = sub(ctx, duty, clone)
 		if err != nil {
 			log.Error(ctx, "Partial signature exchange subscriber encountered an error while processing the partial signature set", err)
 		}
